@@ -3526,6 +3526,7 @@ def check_C19(run):
     back = [a for a, _ in C.run_harness(l2_, timeout=1800)]
     mback = C.run_model(l2_, timeout=1800)
     f10 = []
+    f12 = []
     for (kind, img, name, payload, out), a, m, l in zip(second, back, mback, l2_):
         run.count(f'roundtrip:{kind}'); run.cov['traces_validated_against_impl'] += 1
         if a.split(' msg=')[0] != m and bad is None:
@@ -3554,6 +3555,11 @@ def check_C19(run):
                     if oi + zi > shoff_i:
                         continue       # (a corrupted header: the 'section' is not a stretch of the file in front of the table; the preservation clause does not speak about it)
                     want_ = img[oi:oi + zi] + ((nm + b'\0') if k_ == sx_i else b'')
+                    at_i = s_i[sx_i][0] + s_i[sx_i][1] if sx_i < len(s_i) else 0
+                    if out[oo:oo + zo] != want_ and k_ != sx_i and zi > 0 and ((k_ > sx_i and oi < at_i) or (k_ < sx_i and oi >= at_i)) and any(f.get('id') == 'C19-F12' for f in C.load_known()['open']):
+                        # known finding C19-F12: file order and table order disagree around the names section (offsets are moved by index)
+                        f12.append(f'section {k_} (index {"above" if k_ > sx_i else "below"} the names section {sx_i}, file offset {oi} {"before" if oi < at_i else "at/after"} the insertion point {at_i}): header says {oo}')
+                        continue
                     if out[oo:oo + zo] != want_:
                         why = why or f'section {k_}: contents altered (at {oi}+{zi} in the input, the output header says {oo}+{zo}: {out[oo:oo + zo].hex()[:40]} instead of {want_.hex()[:40]})'
                 if why is None and n_o == n_i + 1 and out[s_o[-1][0]: s_o[-1][0] + s_o[-1][1]] != payload:
@@ -3591,6 +3597,8 @@ def check_C19(run):
         if not ok:
             run.violation(dict(kind='oracle-failed-on-implementation', oracle='extract(add(image, payload)) returns the payload (PE: zero padded) and the original bytes survive', layer='L1', why=why,
                                image_kind=kind, image=img.hex()[:2000], payload=payload.hex()[:400], extracted=a[:400])); break
+    if f12:
+        run.known.append(f'C19-F12: add_section_to_elf moves section offsets by table index, not by file position: {f12[0]} ({len(f12)} layouts this run)')
     if f10:
         g_, fa_, w_ = f10[0]
         run.known.append(f'C19-F10: add_section_to_pe overwrites the start of the first section when the header gap ({g_} bytes) plus one FileAlignment ({fa_}) is below the 40 bytes a section header needs ({len(f10)} layouts this run; e.g. {w_})')
